@@ -71,7 +71,14 @@ Probes ==
 (* the same key in another collection and another key in the same collection, so that leaks show *)
 Neighbours == <<Call("Set", "c0", "k1", WithBody([A0 EXCEPT !.exp = "E2"], "J3")), Call("Add", "c1", "k2", WithBody(A0, "J1"))>>
 
-Sample(op) == IF Cardinality(ArgsFor(op)) <= Cap THEN ArgsFor(op) ELSE RandomSubset(Cap, ArgsFor(op))
+(* the plainest instances of the operations with the largest argument spaces are always included: nothing to set, *)
+(* nothing to remove, no expiry, no option - the calls in which "leave everything else alone" is the whole effect    *)
+Corners(op) ==
+    IF op \in {"WriteWithXattrs", "WriteUpdateWithXattrs", "SetWithMeta", "DeleteWithMeta", "WriteCas"}
+    THEN {a \in ArgsFor(op) : a.sets = NoSets /\ a.dels = NoDels /\ a.exp = "0" /\ ~a.pres /\ a.casc \in {"zero", "cur"}
+                               /\ a.newc \in {"hi", "btw"}}
+    ELSE {}
+Sample(op) == IF Cardinality(ArgsFor(op)) <= Cap THEN ArgsFor(op) ELSE RandomSubset(Cap, ArgsFor(op)) \cup Corners(op)
 
 CoverNext ==
     /\ hist = <<>>
